@@ -143,6 +143,48 @@ def signal_branches(rng: random.Random) -> tuple[list[dict], list[dict] | None, 
     return mk(valid), mk(flawed), "dup_producer_no_branch"
 
 
+def three_producers(rng: random.Random) -> tuple[list[dict], list[dict] | None, str]:
+    """Three producers of ONE name. Valid: a chain ordered by signals (p0, then p1, then p2). Flawed: p0 and p1 are unordered and both
+    precede p2 — and in the node list the unordered pair is NOT adjacent (p2 stands between them), so the verdict must not come from
+    comparing neighbours only."""
+    p0 = _fn("p0", ["a"], ["x"], emits=["d0"])
+    p1_chain = _fn("p1", ["a"], ["x"], emits=["d1"], waitFor=["d0"])
+    p1_free = _fn("p1", ["a"], ["x"], emits=["d1"])
+    p2_chain = _fn("p2", ["a"], ["x"], waitFor=["d1"])
+    p2_join = _fn("p2", ["a"], ["x"], waitFor=["d0", "d1"])
+    use = _fn("use", ["x"], ["seen"])
+    extra = [use] if rng.random() < 0.6 else []
+    order = rng.choice([[0, 2, 1], [1, 2, 0]])
+    valid_ps = [p0, p1_chain, p2_chain]
+    flawed_ps = [p0, p1_free, p2_join]
+    valid = [valid_ps[j] for j in order] + extra
+    flawed = [flawed_ps[j] for j in order] + extra
+    if rng.random() < 0.5:
+        valid, flawed = extra + valid[:3], extra + flawed[:3]
+    mk = lambda ns: [{"name": "g0", "nodes": ns, "bound": []}]   # noqa: E731
+    return mk(valid), mk(flawed), "dup_producer_nonadjacent"
+
+
+def hidden_wait(rng: random.Random) -> tuple[list[dict], list[dict] | None, str]:
+    """A node that waits for a name a nested graph does NOT hand out: the inner signal is hidden by the inner graph's selection (or sits one
+    more level down behind a selecting middle graph). Valid twin: the nested graph exposes the signal and the same wait is fine."""
+    load = _fn("load", ["src"], ["rows"], emits=["loaded"])
+    clean = _fn("clean", ["rows"], ["cleaned"])
+    report = _fn("report", ["cleaned"], ["summary"], waitFor=["loaded"])
+    inner_open = {"name": "prep", "nodes": [load, clean], "bound": []}
+    inner_sel = {"name": "prep", "nodes": [load, clean], "bound": [], "selected": ["cleaned"]}
+    gn = {"name": "prep", "kind": "graph", "inner": 0}
+    if rng.random() < 0.5:
+        return ([inner_open, {"name": "g1", "nodes": [gn, report], "bound": []}],
+                [inner_sel, {"name": "g1", "nodes": [gn, report], "bound": []}], "wait_for_hidden_inner")
+    # two levels: the middle graph selects only the data output
+    mid_open = {"name": "mid", "nodes": [gn], "bound": []}
+    mid_sel = {"name": "mid", "nodes": [gn], "bound": [], "selected": ["cleaned"]}
+    gm = {"name": "mid", "kind": "graph", "inner": 1}
+    return ([inner_open, mid_open, {"name": "g2", "nodes": [gm, report], "bound": []}],
+            [inner_open, mid_sel, {"name": "g2", "nodes": [gm, report], "bound": []}], "wait_for_hidden_inner")
+
+
 def explicit_typed(rng: random.Random) -> tuple[list[dict], list[dict] | None, str]:
     """strict_types with EXPLICIT edges and two signal-ordered producers of one name: each producer's edge is typed on its own."""
     good = rng.choice(["int", "bool"])
@@ -518,7 +560,7 @@ class C19(Prop):
         d1 = [e for _, e in tu.type_universe(1)] if tier == "thorough" else None
         i = 0
         # every dedicated family is visited several times per run, whatever the seed
-        forced = [n_way_gate, signal_branches, explicit_typed, mapped_typed, signal_branches, tuple_typed, branch_typed] * 4
+        forced = [n_way_gate, signal_branches, explicit_typed, mapped_typed, signal_branches, tuple_typed, branch_typed] * 4 + [three_producers, hidden_wait] * 3
         while True:
             i += 1
             if i % 4 == 0:
@@ -533,9 +575,9 @@ class C19(Prop):
                 continue
             r = rng.random()
             if forced or r < 0.09:
-                fam = forced.pop() if forced else rng.choice([n_way_gate, signal_branches, signal_branches, explicit_typed, mapped_typed, tuple_typed, branch_typed])
+                fam = forced.pop() if forced else rng.choice([n_way_gate, signal_branches, signal_branches, explicit_typed, mapped_typed, tuple_typed, branch_typed, three_producers, hidden_wait])
                 valid, flawed, flaw = fam(rng)
-                if rng.random() < 0.3 and fam is not mapped_typed:
+                if rng.random() < 0.3 and fam is not mapped_typed and fam is not hidden_wait:
                     # the same inside a nested graph
                     wrap = lambda pr: [pr[0], {"name": "outer", "nodes": [{"name": "w", "kind": "graph", "inner": 0}], "bound": []}]   # noqa: E731
                     valid, flawed = wrap(valid), wrap(flawed)
